@@ -875,6 +875,7 @@ class Generator:
         "_next_name",
         "_identifier_start",
         "_identifier_end",
+        "_identifier_escapes_backslash",
         "_quote_json_path_key_using_brackets",
         "_dispatch",
     )
@@ -929,6 +930,7 @@ class Generator:
 
         self._identifier_start = self.dialect.IDENTIFIER_START
         self._identifier_end = self.dialect.IDENTIFIER_END
+        self._identifier_escapes_backslash = "\\" in self.dialect.tokenizer_class.IDENTIFIER_ESCAPES
 
         self._quote_json_path_key_using_brackets = True
 
@@ -2005,6 +2007,9 @@ class Generator:
         lower = text.lower()
         quoted = expression.quoted
         text = lower if self.normalize and not quoted else text
+        if self._identifier_escapes_backslash:
+            # A backslash is an escape character inside this dialect's quoted identifiers
+            text = text.replace("\\", "\\\\")
         text = text.replace(self._identifier_end, self._escaped_identifier_end)
         if (
             quoted
